@@ -308,6 +308,9 @@ func runCliCase(r *Result, d *DriverPool, gxz string, c cliCase) {
 		if exit != mexit && strings.Join(names, "\x00") == strings.Join(mnames, "\x00") && (exit == 0) != (mexit == 0) {
 			r.Violate("counterexample", fmt.Sprintf("exit-status %d but expected %d", exit, mexit), c,
 				fmt.Sprintf("the exit status must be non-zero exactly when some file could not be processed: real %d, expected %d (files %q); stderr: %s", exit, mexit, names, truncate(stderr.String(), 200)))
+		} else if exit == mexit && strings.Join(names, "\x00") != strings.Join(mnames, "\x00") {
+			r.Violate("counterexample", "resulting-file-names-differ", c,
+				fmt.Sprintf("after the run the directory holds %q; the command-line semantics (theorems of Props/C15 about target names, -k, -c, -f) give %q; exit %d", names, mnames, exit))
 		} else if exit != mexit || strings.Join(names, "\x00") != strings.Join(mnames, "\x00") {
 			r.Violate("broken-correspondence", fmt.Sprintf("gxz-vs-model exit %d/%d", exit, mexit), c,
 				fmt.Sprintf("real: exit %d, files %q; model (GFlag.parse + plan): exit %d, files %q; stderr: %s", exit, names, mexit, mnames, truncate(stderr.String(), 200)))
@@ -531,6 +534,10 @@ func checkC15(a *checkArgs, r *Result) error {
 				defer os.RemoveAll(dir)
 				name := []string{"file.txt", "with space", "noext"}[preset%3]
 				payload := cliPayload(1000 + preset)
+				if preset%3 == 2 && preset > 0 { // a match further back than the smallest preset's dictionary (256 KiB)
+					head := cliPayload(77)
+					payload = append(append(append([]byte{}, head...), genRandom(rand.New(rand.NewSource(int64(preset))), 400000)...), head...)
+				}
 				if preset%3 == 1 { // incompressible prefix spanning several LZMA2 chunks, then text
 					payload = append(genRandom(rand.New(rand.NewSource(int64(preset))), 200000), payload...)
 				}
@@ -560,7 +567,11 @@ func checkC15(a *checkArgs, r *Result) error {
 				if t1[cname].mode&^uint32(mode) != 0 {
 					r.Violate("counterexample", "permission-bits-added", cs, fmt.Sprintf("compressed file mode %o, input %o", t1[cname].mode, mode))
 				}
-				e2 := run("-d", "--", cname)
+				dargs := []string{"-d", "--", cname}
+				if preset%3 == 2 {
+					dargs = []string{"-d", "-0", "--", cname} // a smaller preset at decompression must not matter
+				}
+				e2 := run(dargs...)
 				t2 := readTree(dir)
 				if e2 != 0 || len(t2) != 1 || !bytes.Equal(t2[name].data, payload) || t2[name].mode&^uint32(mode) != 0 {
 					r.Violate("counterexample", "roundtrip-decompress "+format, cs, fmt.Sprintf("gxz -d: exit %d, directory %v, mode %o (input %o)", e2, keysOf(t2), t2[name].mode, mode))
